@@ -9,6 +9,7 @@ pub mod runner;
 pub mod scenario;
 pub mod sim;
 pub mod trace;
+pub mod ugen;
 pub mod view;
 pub mod world;
 
@@ -24,4 +25,8 @@ pub fn install_panic_hook() {
         let loc = info.location().map(|l| format!("{}:{}", l.file(), l.line())).unwrap_or_default();
         LAST_PANIC_LOC.with(|l| *l.borrow_mut() = loc);
     }));
+}
+
+pub fn case_to_json(case: &scenario::Case) -> String {
+    serde_json::to_string(case).unwrap_or_default()
 }
